@@ -27,7 +27,11 @@ func transformMaybeExternal(data any, p tree.Path, ignoreParseError bool) (any, 
 	if data == nil {
 		return nil, nil
 	}
-	resource, err := transformMapping(data.(map[string]any), p, ignoreParseError)
+	mapping, ok := data.(map[string]any)
+	if !ok {
+		return nil, fmt.Errorf("%s: invalid type %T, expected a mapping", p, data)
+	}
+	resource, err := transformMapping(mapping, p, ignoreParseError)
 	if err != nil {
 		return nil, err
 	}
@@ -38,6 +42,9 @@ func transformMaybeExternal(data any, p tree.Path, ignoreParseError bool) (any, 
 			resource["external"] = true
 			if extname, extNamed := external["name"]; extNamed {
 				logrus.Warnf("%s: external.name is deprecated. Please set name and external: true", p)
+				if _, ok := extname.(string); !ok {
+					return nil, fmt.Errorf("%s: external.name must be a string", p)
+				}
 				if named && extname != name {
 					return nil, fmt.Errorf("%s: name and external.name conflict; only use name", p)
 				}
